@@ -248,6 +248,8 @@ type caseCtx struct {
 	qname    string
 	applied  atomic.Int64
 	byRole   [5]atomic.Int64
+	// window[role]: responses sent whose only defect is the RRSIG window
+	window [5]atomic.Int64
 }
 
 func roleIdx(r string) int {
@@ -276,6 +278,13 @@ type tamperKind struct {
 	// Alters: the forged response carries different data than the signer
 	// published (acceptance shows as OTHER).
 	Alters bool
+	// ParentTogether: a parent-side case scripts ALL ParentRoles at once
+	// (referral and DS answer), so no parent server can hand out a verifiable
+	// DS any more; the position is recorded as role "ds".
+	ParentTogether bool
+	// ZoneTogether: a zone-side case scripts ALL ZoneRoles at once (the
+	// position is recorded as "multi").
+	ZoneTogether bool
 	// Needs gates applicability.
 	Needs func(c *caseCtx, q QuerySpec) bool
 	// Apply mutates m (a private copy of the honest response) and reports
@@ -443,7 +452,7 @@ var kinds = []*tamperKind{
 			return len(m.Ns) != n
 		}},
 	{Name: "ds-swap", ParentRoles: []string{roleReferral, roleDS}, Breaks: true, Alters: true, Needs: func(c *caseCtx, q QuerySpec) bool {
-		return signedZone(c, q) && c.parent != nil && c.parent.Delegation(c.z.Apex()) != nil && c.parent.Delegation(c.z.Apex()).Secure()
+		return signedZone(c, q) && delegSecure(c.parent, c.z.Apex())
 	},
 		Apply: func(c *caseCtx, q, m *dns.Msg, role string, atParent bool) bool {
 			evil := c.attacker.DS(3600)
@@ -467,7 +476,7 @@ var kinds = []*tamperKind{
 	// unsigned data and an unsigned DNSKEY set.
 	{Name: "downgrade", ZoneRoles: []string{roleAnswer, roleNegative, roleDNSKEY}, ParentRoles: []string{roleReferral, roleDS}, Breaks: true, Alters: true,
 		Needs: func(c *caseCtx, q QuerySpec) bool {
-			return signedZone(c, q) && c.parent != nil && c.parent.Delegation(c.z.Apex()) != nil && c.parent.Delegation(c.z.Apex()).Secure()
+			return signedZone(c, q) && delegSecure(c.parent, c.z.Apex())
 		},
 		Apply: func(c *caseCtx, q, m *dns.Msg, role string, atParent bool) bool {
 			if atParent {
@@ -655,6 +664,34 @@ var kinds = []*tamperKind{
 			m.Answer = resign(m.Answer, c.attacker, nil, nil)
 			return true
 		}},
+	// window-expired / window-notyet: the response is the honest one, byte
+	// for byte, except that every RRSIG made by the scripted zone is re-made
+	// with a validity window that lies entirely in the past / in the future
+	// (same key, same labels, same original TTL). The ONLY defect is the window.
+	{Name: "window-expired", ZoneRoles: []string{roleAnswer, roleNegative, roleDNSKEY}, ParentRoles: []string{roleDS, roleReferral}, ParentTogether: true, Breaks: true, Needs: windowNeeds,
+		Apply: func(c *caseCtx, q, m *dns.Msg, role string, atParent bool) bool {
+			now := time.Now()
+			return applyWindow(c, m, role, atParent, "expired", uint32(now.Add(-30*24*time.Hour).Unix()), uint32(now.Add(-26*time.Hour).Unix()))
+		}},
+	{Name: "window-notyet", ZoneRoles: []string{roleAnswer, roleNegative, roleDNSKEY}, ParentRoles: []string{roleDS, roleReferral}, ParentTogether: true, Breaks: true, Needs: windowNeeds,
+		Apply: func(c *caseCtx, q, m *dns.Msg, role string, atParent bool) bool {
+			now := time.Now()
+			return applyWindow(c, m, role, atParent, "notyet", uint32(now.Add(26*time.Hour).Unix()), uint32(now.Add(30*24*time.Hour).Unix()))
+		}},
+	// unsigned-child: every response of the zone's own servers (data, denial,
+	// DNSKEY) arrives without signatures and with forged data, while the
+	// parent keeps publishing its (signed) DS RRset untouched. With a usable
+	// DS at the parent this is bogus whatever else the DS RRset contains.
+	{Name: "unsigned-child", ZoneRoles: []string{roleAnswer, roleNegative, roleDNSKEY}, ZoneTogether: true, Breaks: true, Alters: true,
+		Needs: func(c *caseCtx, q QuerySpec) bool { return signedZone(c, q) && delegSecure(c.parent, c.z.Apex()) },
+		Apply: func(c *caseCtx, q, m *dns.Msg, role string, atParent bool) bool {
+			if role == roleAnswer {
+				alterAnswer(m)
+			}
+			stripSigs(m)
+			m.Ns = filterRRs(m.Ns, func(rr dns.RR) bool { return !isSec(rr.Header().Rrtype) })
+			return true
+		}},
 }
 
 func kindByName(n string) *tamperKind {
@@ -673,4 +710,81 @@ func contains(l []string, s string) bool {
 		}
 	}
 	return false
+}
+
+func windowNeeds(c *caseCtx, q QuerySpec) bool { return signedZone(c, q) }
+
+// applyWindow re-makes the RRSIGs of one response with the window inc..exp.
+// Zone side: every RRSIG whose signer is the attacked zone. Parent side: the
+// RRSIGs over the DS RRset of the attacked zone (signer = parent).
+func applyWindow(c *caseCtx, m *dns.Msg, role string, atParent bool, which string, inc, exp uint32) bool {
+	signer := c.z
+	only := uint16(0)
+	if atParent {
+		signer, only = c.parent, dns.TypeDS
+	}
+	if signer == nil || !signer.Signed() {
+		return false
+	}
+	n := rewindow(m, signer, only, inc, exp)
+	if n > 0 {
+		c.window[roleIdx(role)].Add(1)
+	}
+	return n > 0
+}
+
+// rewindow replaces, in the answer and authority sections, every RRSIG made by
+// zone z (covering type `only`, 0 = any) by a signature over the same RRset
+// with the same key, labels and original TTL but the validity window inc..exp.
+// It returns the number of signatures replaced; a signature it cannot re-make
+// (no private key, RRset not in the message) is left alone.
+func rewindow(m *dns.Msg, z *zm.Zone, only uint16, inc, exp uint32) int {
+	n := 0
+	for _, sec := range []*[]dns.RR{&m.Answer, &m.Ns} {
+		for i, rr := range *sec {
+			sig, ok := rr.(*dns.RRSIG)
+			if !ok || !strings.EqualFold(sig.SignerName, z.Apex()) || (only != 0 && sig.TypeCovered != only) {
+				continue
+			}
+			var key *zm.Key
+			for _, k := range z.Keys() {
+				if k.Priv != nil && k.DNSKEY.KeyTag() == sig.KeyTag && k.DNSKEY.Algorithm == sig.Algorithm {
+					key = k
+				}
+			}
+			if key == nil {
+				continue
+			}
+			var set []dns.RR
+			for _, x := range *sec {
+				if x.Header().Rrtype == sig.TypeCovered && strings.EqualFold(x.Header().Name, sig.Hdr.Name) {
+					set = append(set, dns.Copy(x))
+				}
+			}
+			if len(set) == 0 {
+				continue
+			}
+			owner := sig.Hdr.Name
+			if int(sig.Labels) < dns.CountLabel(owner) {
+				// wildcard expansion: the signature is over "*.<closest encloser>"
+				idx := dns.Split(owner)
+				wild := "*." + owner[idx[len(idx)-int(sig.Labels)]:]
+				for _, x := range set {
+					x.Header().Name = wild
+				}
+			}
+			ottl := sig.OrigTtl
+			for _, x := range set {
+				x.Header().Ttl = ottl
+			}
+			ns, err := z.SignRRset(set, &zm.SigOpts{Key: key, Inception: inc, Expiration: exp, OrigTTL: &ottl})
+			if err != nil || ns.Labels != sig.Labels {
+				continue
+			}
+			ns.Hdr = sig.Hdr
+			(*sec)[i] = ns
+			n++
+		}
+	}
+	return n
 }
